@@ -596,7 +596,11 @@ func (e *Env) evalCall(x *Call) *Val {
 		return mkVal(a, "Int", types.NewPointer(t))
 	case "allocated":
 		// allocated(p): p points into an object that existed at function entry
-		return boolVal("(< (obase " + arg(0).E() + ") ALLOC_0)")
+		al := "ALLOC_0"
+		if e.old != nil {
+			al = e.old.get(u, "ALLOC")
+		}
+		return boolVal("(< (obase " + arg(0).E() + ") " + al + ")")
 	case "fresh":
 		return boolVal("(>= (obase " + arg(0).E() + ") " + e.old.get(u, "ALLOC") + ")")
 	case "freshObj":
@@ -615,6 +619,12 @@ func (e *Env) evalCall(x *Call) *Val {
 		}
 		t := tr.resolveType(sl.V)
 		return mkVal(ifPart(arg(0), 1), "Int", t)
+	case "ftag", "fbase", "eidx":
+		return mkVal("("+x.Fn+" "+arg(0).E()+")", "Int", types.Typ[types.UnsafePointer])
+	case "elemAddr":
+		return mkVal(ea(arg(0).E(), arg(1).E()), "Int", types.Typ[types.UnsafePointer])
+	case "memStr":
+		return mkVal("(select "+e.st.get(u, "MStr")+" "+arg(0).E()+")", "String", types.Typ[types.String])
 	case "obase":
 		return mkVal("(obase "+arg(0).E()+")", "Int", types.Typ[types.UnsafePointer])
 	case "payload":
